@@ -149,6 +149,10 @@ def _plain(v):
     return False
 
 
+class _NotPure(Exception):
+    """A function body outside the small pure subset the folder runs."""
+
+
 class Folder:
     def __init__(self, world, ext_call=None):
         self.world = world
@@ -406,9 +410,8 @@ class Folder:
         body = [x for x in fn.body if not (isinstance(x, ast.Expr)
                                            and isinstance(x.value,
                                                           ast.Constant))]
-        if len(body) != 1 or not isinstance(body[0], ast.Return) or \
-                body[0].value is None:
-            return UNKNOWN
+        simple = len(body) == 1 and isinstance(body[0], ast.Return) and \
+            body[0].value is not None
         env = {}
         params = [a.arg for a in fn.args.args]
         if len(args) > len(params):
@@ -425,7 +428,73 @@ class Folder:
             env[fn.args.kwarg.arg] = rest
         elif rest:
             return UNKNOWN
-        return self._eval(body[0].value, env, fmod, None, None)
+        if simple:
+            return self._eval(body[0].value, env, fmod, None, None)
+        # a small pure body: locals, a list filled by append in a loop over
+        # a constant range, conditionals on constants, one return
+        try:
+            r = self._exec_pure(body, env, fmod, [0])
+        except _NotPure:
+            return UNKNOWN
+        return r[1] if r is not None else None
+
+    def _exec_pure(self, stmts, env, fmod, budget):
+        for st in stmts:
+            budget[0] += 1
+            if budget[0] > 200000:
+                raise _NotPure()
+            if isinstance(st, ast.Return):
+                v = None if st.value is None else self._eval(
+                    st.value, env, fmod, None, None)
+                if v is UNKNOWN:
+                    raise _NotPure()
+                return ("return", v)
+            if isinstance(st, ast.Assign) and len(st.targets) == 1 and \
+                    isinstance(st.targets[0], ast.Name):
+                v = self._eval(st.value, env, fmod, None, None)
+                if v is UNKNOWN:
+                    raise _NotPure()
+                env[st.targets[0].id] = v
+                continue
+            if isinstance(st, ast.Expr) and isinstance(
+                    st.value, ast.Call) and isinstance(
+                        st.value.func, ast.Attribute) and isinstance(
+                            st.value.func.value, ast.Name) and \
+                    st.value.func.attr == "append" and len(
+                        st.value.args) == 1 and not st.value.keywords and \
+                    isinstance(env.get(st.value.func.value.id), list):
+                v = self._eval(st.value.args[0], env, fmod, None, None)
+                if v is UNKNOWN:
+                    raise _NotPure()
+                env[st.value.func.value.id].append(v)
+                continue
+            if isinstance(st, ast.Expr) and isinstance(st.value,
+                                                       ast.Constant):
+                continue
+            if isinstance(st, ast.Pass):
+                continue
+            if isinstance(st, ast.If):
+                t = self._eval(st.test, env, fmod, None, None)
+                if t is UNKNOWN:
+                    raise _NotPure()
+                r = self._exec_pure(st.body if t else st.orelse, env, fmod,
+                                    budget)
+                if r is not None:
+                    return r
+                continue
+            if isinstance(st, ast.For) and not st.orelse and isinstance(
+                    st.target, ast.Name):
+                it = self._eval(st.iter, env, fmod, None, None)
+                if it is UNKNOWN:
+                    raise _NotPure()
+                for item in it:
+                    env[st.target.id] = item
+                    r = self._exec_pure(st.body, env, fmod, budget)
+                    if r is not None:
+                        return r
+                continue
+            raise _NotPure()
+        return None
 
     def _comp(self, gens, i, env, mod, cls, ep, emit):
         if i == len(gens):
